@@ -90,6 +90,10 @@ structure Inv4 (st : State) : Prop where
   fifo : ∀ s ∈ st.subs, ∀ l, histAt st s.conn = some l → dataOf s.subId l = s.produced
   closes : ∀ s ∈ st.subs, ∀ l, histAt st s.conn = some l →
     closeCount s.subId l = (if s.closeSent then 1 else 0)
+  /-- the frame-level statements identify a subscription by the id on the wire: they are about
+  histories in which the id provider never repeats an id (`FreshRun`) -/
+  uniq : ∀ (i j : Nat) (si sj : Sub), st.subs[i]? = some si → st.subs[j]? = some sj →
+    si.subId = sj.subId → i = j
 
 theorem inv4_init (cfg : List (Nat × Nat)) : Inv4 (init cfg) := by
   have hh : ∀ c l, histAt (init cfg) c = some l → l = [] := by
@@ -97,7 +101,7 @@ theorem inv4_init (cfg : List (Nat × Nat)) : Inv4 (init cfg) := by
     simp [histAt, init, List.getElem?_map] at h
     obtain ⟨a, b, _, rfl⟩ := h
     simp [Conn.hist, mkConn]
-  refine ⟨?_, by simp [init], ?_, by simp [init], by simp [init]⟩
+  refine ⟨?_, by simp [init], ?_, by simp [init], by simp [init], by simp [init]⟩
   · intro c l h f hf
     rw [hh c l h] at hf; simp at hf
   · intro c l h
@@ -158,7 +162,7 @@ theorem inv4_put {st : State} (h : Inv st) (h4 : Inv4 st) {k : Nat} {s s' : Sub}
     rcases getElem?_set_cases hj with ⟨_, e⟩ | ⟨hne, hj'⟩
     · exact Or.inl e
     · refine Or.inr ⟨List.mem_iff_getElem?.mpr ⟨j, hj'⟩, fun e => hne ?_⟩
-      exact h.idUniq j k t s hj' hs e
+      exact h4.uniq j k t s hj' hs e
   have s'_mem : s' ∈ (put st k s' cn').subs := by
     simp only [put]
     have hk : k < st.subs.length := by
@@ -177,7 +181,7 @@ theorem inv4_put {st : State} (h : Inv st) (h4 : Inv4 st) {k : Nat} {s s' : Sub}
     · refine ⟨t, ?_, hf, hcn, hp⟩
       simp only [put]
       exact List.mem_iff_getElem?.mpr ⟨j, by rw [List.getElem?_set_ne (fun e => hjk e.symm)]; exact hj⟩
-  refine ⟨?_, ?_, ?_, ?_, ?_⟩
+  refine ⟨?_, ?_, ?_, ?_, ?_, ?_⟩
   · -- frames
     intro c l hcl f hf hown
     rw [histAt_put] at hcl
@@ -275,11 +279,20 @@ theorem inv4_put {st : State} (h : Inv st) (h4 : Inv4 st) {k : Nat} {s s' : Sub}
             closeCount_single_other (s := s') (fun ho => (hfs f (by simp) ho).1) t.subId (by rw [hid]; exact hne),
             ih (fun g hg => hfs g (by simp [hg]))]
       · exact h4.closes t ht' l hcl
+  · -- uniq
+    intro i j si sj hi hj hij
+    simp only [put] at hi hj
+    rcases getElem?_set_cases hi with ⟨e1, e2⟩ | ⟨hik, hi'⟩ <;>
+      rcases getElem?_set_cases hj with ⟨e3, e4⟩ | ⟨hjk, hj'⟩
+    · omega
+    · rw [e2, hid] at hij; rw [e1]; exact h4.uniq _ _ _ _ hs hj' hij
+    · rw [e4, hid] at hij; rw [e3]; exact h4.uniq _ _ _ _ hi' hs hij
+    · exact h4.uniq _ _ _ _ hi' hj' hij
 
 /-- `Inv4` sees the state only through the subscription list and the histories -/
 theorem inv4_congr {st st' : State} (h4 : Inv4 st) (hsubs : st'.subs = st.subs)
     (hh : ∀ c, histAt st' c = histAt st c) : Inv4 st' := by
-  refine ⟨?_, ?_, ?_, ?_, ?_⟩
+  refine ⟨?_, ?_, ?_, ?_, ?_, ?_⟩
   · intro c l hcl f hf ho
     rw [hh] at hcl; rw [hsubs]; exact h4.frames c l hcl f hf ho
   · intro s hs hp l hcl
@@ -290,6 +303,7 @@ theorem inv4_congr {st st' : State} (h4 : Inv4 st) (hsubs : st'.subs = st.subs)
     rw [hh] at hcl; rw [hsubs] at hs; exact h4.fifo s hs l hcl
   · intro s hs l hcl
     rw [hh] at hcl; rw [hsubs] at hs; exact h4.closes s hs l hcl
+  · rw [hsubs]; exact h4.uniq
 
 theorem dataOf_unowned (x : Nat) (fs : List Frame) (h : ∀ f ∈ fs, f.owned = false) : dataOf x fs = [] := by
   induction fs with
@@ -326,7 +340,7 @@ theorem inv4_putConn {st : State} (h4 : Inv4 st) {c : Nat} {cn cn' : Conn}
       exact Or.inl ⟨rfl, by rw [← hcl, hhist]⟩
     · rename_i e
       exact Or.inr ⟨fun e' => e e'.symm, hcl⟩
-  refine ⟨?_, ?_, ?_, ?_, ?_⟩
+  refine ⟨?_, ?_, ?_, ?_, ?_, h4.uniq⟩
   · intro c2 l hcl f hf ho
     rcases hnew c2 l hcl with ⟨rfl, rfl⟩ | ⟨_, hold⟩
     · rcases List.mem_append.mp hf with hf | hf
@@ -378,20 +392,36 @@ theorem closeCount_zero_of_no_notif (x : Nat) (l : List Frame) (h : ∀ f ∈ l,
       (intro e; simp [Frame.notifSid, e] at hf)
 
 /-- no frame anywhere names a subscription id that has not been handed out -/
-theorem no_frame_for_fresh {st : State} (h : Inv st) (h4 : Inv4 st) (c : Nat) (l : List Frame)
-    (hcl : histAt st c = some l) (x : Nat) (hx : st.nextId ≤ x) : ∀ f ∈ l, f.notifSid ≠ some x := by
+theorem no_frame_for_fresh {st : State} (h4 : Inv4 st) (c : Nat) (l : List Frame)
+    (hcl : histAt st c = some l) (x : Nat) (hx : ∀ s ∈ st.subs, s.subId ≠ x) : ∀ f ∈ l, f.notifSid ≠ some x := by
   intro f hf e
   have ho : f.owned = true := by cases f <;> simp_all [Frame.notifSid, Frame.owned]
   obtain ⟨s, hs, hfit, _, _⟩ := h4.frames c l hcl f hf ho
-  have := fits_sid hfit x e
-  have := h.idLt s hs
-  omega
+  exact hx s hs (fits_sid hfit x e).symm
 
 @[simp] theorem hist_push (cn : Conn) (f : Frame) : (cn.push f).hist = cn.hist ++ [f] := by
   simp [Conn.push, Conn.hist]
 @[simp] theorem hist_release (cn : Conn) : cn.release.hist = cn.hist := rfl
 
 /-! ### every operation preserves `Inv4` -/
+
+/-- with ids never repeated an accept overwrites nobody -/
+theorem displace_id_of_uniq {st : State} (h4 : Inv4 st) {k : Nat} {s : Sub} (hs : st.subs[k]? = some s)
+    (hnt : s.inTable = false) : st.subs.map (displace s.conn s.meth s.subId) = st.subs := by
+  have : ∀ t ∈ st.subs, displace s.conn s.meth s.subId t = t := by
+    intro t ht
+    unfold displace
+    split
+    · rename_i hd
+      exfalso
+      simp only [sameKey, Bool.and_eq_true, beq_iff_eq] at hd
+      obtain ⟨j, hj⟩ := List.mem_iff_getElem?.mp ht
+      have e := h4.uniq j k t s hj hs hd.1.2
+      subst e
+      rw [hs] at hj; cases hj
+      rw [hnt] at hd; exact absurd hd.2 (by simp)
+    · rfl
+  rw [List.map_congr_left this]; simp
 
 theorem inv4_accept {st : State} (h : Inv st) (h4 : Inv4 st) (k : Nat) : Inv4 (doAccept st k).1 := by
   unfold doAccept
@@ -403,7 +433,8 @@ theorem inv4_accept {st : State} (h : Inv st) (h4 : Inv4 st) (k : Nat) : Inv4 (d
     · exact h4
     · rename_i hph
       have hph : s.phase = .pending := by simpa using hph
-      obtain ⟨f1, f2, f3, f4, f5⟩ := ok.notAcc (by simp [hph])
+      obtain ⟨f1, f2, f3, f4, f5, f6⟩ := ok.notAcc (by simp [hph])
+      rw [displace_id_of_uniq h4 (lookup_some hl).1 f2]
       split
       · refine inv4_put h h4 hl rfl rfl rfl rfl (by simp [hph]) [] (by simp) (by simp) (by simp) (by simp)
           (by simp [dataOf]) (by simp [closeCount])
@@ -560,7 +591,7 @@ theorem inv4_unsubscribe {st : State} (h : Inv st) (h4 : Inv4 st) (c m x rid : N
         · exact inv4_putConn h4 hc [.unsub rid false] (by simp) (by simp [Frame.owned])
         · rename_i k hf
           obtain ⟨s, hs, hp⟩ := findIdx_some hf
-          simp only [tableKey, Bool.and_eq_true, beq_iff_eq] at hp
+          simp only [tableKey, sameKey, Bool.and_eq_true, beq_iff_eq] at hp
           obtain ⟨⟨⟨hsc, _⟩, _⟩, hit⟩ := hp
           rw [hs]
           have hl : lookup st k = some (s, cn) := by
@@ -571,8 +602,13 @@ theorem inv4_unsubscribe {st : State} (h : Inv st) (h4 : Inv4 st) (c m x rid : N
           intro hp
           exact List.mem_append.mpr (Or.inl (h4.respIn s (lookup_mem hl) hp cn.hist (by simp [histAt, hsc, hc])))
 
-theorem inv4_subscribe {st : State} (h : Inv st) (h4 : Inv4 st) (c m rid : Nat) :
-    Inv4 (doSubscribe st c m rid).1 := by
+/-- the id provider hands out an id it has never handed out before -/
+def freshOp (st : State) : Op → Prop
+  | .subscribe _ _ _ sid => ∀ s ∈ st.subs, s.subId ≠ sid
+  | _ => True
+
+theorem inv4_subscribe {st : State} (h4 : Inv4 st) (c m rid sid : Nat)
+    (hfresh : ∀ s ∈ st.subs, s.subId ≠ sid) : Inv4 (doSubscribe st c m rid sid).1 := by
   unfold doSubscribe
   split
   · exact h4
@@ -586,16 +622,16 @@ theorem inv4_subscribe {st : State} (h : Inv st) (h4 : Inv4 st) (c m rid : Nat) 
         · exact inv4_putConn h4 hc [.err rid tooManyCode] (by simp) (by simp [Frame.owned])
         · exact h4
       · -- a fresh pending record is appended; histories unchanged
-        have hh : ∀ (sb : List Sub) (nx c2 : Nat),
-            histAt ⟨st.conns.set c { cn with permitsFree := cn.permitsFree - 1 }, sb, nx⟩ c2 = histAt st c2 := by
-          intro sb nx c2
+        have hh : ∀ (sb : List Sub) (c2 : Nat),
+            histAt ⟨st.conns.set c { cn with permitsFree := cn.permitsFree - 1 }, sb⟩ c2 = histAt st c2 := by
+          intro sb c2
           simp only [histAt, List.getElem?_set]
           by_cases e : c = c2
           · subst e
             rw [hc]
             simp [hlen, Conn.hist]
           · simp [e]
-        refine ⟨?_, ?_, ?_, ?_, ?_⟩
+        refine ⟨?_, ?_, ?_, ?_, ?_, ?_⟩
         · intro c2 l hcl f hf ho
           rw [hh] at hcl
           obtain ⟨s, hs, r⟩ := h4.frames c2 l hcl f hf ho
@@ -614,21 +650,38 @@ theorem inv4_subscribe {st : State} (h : Inv st) (h4 : Inv4 st) (c m rid : Nat) 
           simp only [List.mem_append, List.mem_singleton] at hs
           rcases hs with hs | rfl
           · exact h4.fifo s hs l hcl
-          · exact dataOf_nil_of_no_notif _ l (no_frame_for_fresh h h4 _ l hcl _ (Nat.le_refl _))
+          · exact dataOf_nil_of_no_notif _ l (no_frame_for_fresh h4 _ l hcl _ hfresh)
         · intro s hs l hcl
           rw [hh] at hcl
           simp only [List.mem_append, List.mem_singleton] at hs
           rcases hs with hs | rfl
           · exact h4.closes s hs l hcl
-          · simpa using closeCount_zero_of_no_notif _ l (no_frame_for_fresh h h4 _ l hcl _ (Nat.le_refl _))
+          · simpa using closeCount_zero_of_no_notif _ l (no_frame_for_fresh h4 _ l hcl _ hfresh)
+        · intro i j si sj hi hj hij
+          have old : ∀ (n : Nat) (t : Sub),
+              (st.subs ++ [({ conn := c, meth := m, subId := sid, reqId := rid } : Sub)])[n]? = some t →
+              st.subs[n]? = some t ∨ (n = st.subs.length ∧ t.subId = sid) := by
+            intro n t hn
+            rw [List.getElem?_append] at hn
+            split at hn
+            · exact Or.inl hn
+            · cases hnn : n - st.subs.length with
+              | zero => simp [hnn] at hn; exact Or.inr ⟨by omega, by rw [← hn]⟩
+              | succ q => simp [hnn] at hn
+          rcases old i si hi with hi0 | ⟨ei, es⟩ <;> rcases old j sj hj with hj0 | ⟨ej, et⟩
+          · exact h4.uniq i j si sj hi0 hj0 hij
+          · exact absurd (by rw [hij, et]) (hfresh si (List.mem_iff_getElem?.mpr ⟨i, hi0⟩))
+          · exact absurd (by rw [← hij, es]) (hfresh sj (List.mem_iff_getElem?.mpr ⟨j, hj0⟩))
+          · omega
 
 theorem inv4_connOnly {st : State} (h4 : Inv4 st) {c : Nat} {cn cn' : Conn}
     (hc : st.conns[c]? = some cn) (hhist : cn'.hist = cn.hist) : Inv4 (putConn st c cn') :=
   inv4_putConn h4 hc [] (by simp [hhist]) (by simp)
 
-theorem inv4_step {st : State} (h : Inv st) (h4 : Inv4 st) (op : Op) : Inv4 (step st op).1 := by
+theorem inv4_step {st : State} (h : Inv st) (h4 : Inv4 st) (op : Op) (hf : freshOp st op) :
+    Inv4 (step st op).1 := by
   cases op with
-  | subscribe c m rid => exact inv4_subscribe h h4 c m rid
+  | subscribe c m rid sid => exact inv4_subscribe h4 c m rid sid hf
   | accept k => exact inv4_accept h h4 k
   | reject k code => exact inv4_refuse h h4 k code .rejected (by decide)
   | dropPending k => exact inv4_refuse h h4 k internalCode .dropped (by decide)
@@ -673,14 +726,53 @@ theorem inv4_step {st : State} (h : Inv st) (h4 : Inv4 st) (op : Op) : Inv4 (ste
         · rename_i f q hq
           exact inv4_connOnly h4 hc (by simp [Conn.hist, hq])
 
-theorem run_inv4 {st : State} (h : Inv st) (h4 : Inv4 st) (ops : List Op) : Inv4 (run st ops) := by
-  induction ops generalizing st with
-  | nil => exact h4
-  | cons op r ih => exact ih (inv_step h op) (inv4_step h h4 op)
+def FreshRun (st : State) : List Op → Prop
+  | [] => True
+  | op :: r => freshOp st op ∧ FreshRun (step st op).1 r
 
-theorem reachable_inv4 {st : State} (hr : Reachable st) : Inv4 st := by
-  obtain ⟨cfg, ops, rfl⟩ := hr
-  exact run_inv4 (inv_init cfg) (inv4_init cfg) ops
+instance (st : State) (op : Op) : Decidable (freshOp st op) := by
+  cases op <;> simp only [freshOp] <;> infer_instance
+
+def decFresh : (st : State) → (ops : List Op) → Decidable (FreshRun st ops)
+  | _, [] => isTrue trivial
+  | st, op :: r =>
+    have := decFresh (step st op).1 r
+    by simp only [FreshRun]; infer_instance
+
+instance (st : State) (ops : List Op) : Decidable (FreshRun st ops) := decFresh st ops
+
+/-- reachable with an id provider that never repeats an id (counter, random): the setting of the
+frame-level theorems, which identify a subscription by the id on the wire -/
+def ReachableF (st : State) : Prop := ∃ cfg ops, st = run (init cfg) ops ∧ FreshRun (init cfg) ops
+
+theorem run_inv4 (ops : List Op) : ∀ (st : State), Inv st → Inv4 st → FreshRun st ops → Inv4 (run st ops) := by
+  induction ops with
+  | nil => intro st _ h4 _; exact h4
+  | cons op r ih => intro st h h4 hf; exact ih _ (inv_step h op) (inv4_step h h4 op hf.1) hf.2
+
+theorem reachableF_inv4 {st : State} (hr : ReachableF st) : Inv4 st := by
+  obtain ⟨cfg, ops, rfl, hf⟩ := hr
+  exact run_inv4 ops _ (inv_init cfg) (inv4_init cfg) hf
+
+theorem reachableF_reachable {st : State} (h : ReachableF st) : Reachable st := by
+  obtain ⟨cfg, ops, e, _⟩ := h; exact ⟨cfg, ops, e⟩
+
+theorem reachableF_step {st : State} (h : ReachableF st) (op : Op) (hf : freshOp st op) :
+    ReachableF (step st op).1 := by
+  obtain ⟨cfg, ops, rfl, hd⟩ := h
+  refine ⟨cfg, ops ++ [op], ?_, ?_⟩
+  · have : ∀ (s : State) (l : List Op), run s (l ++ [op]) = (step (run s l) op).1 := by
+      intro s l
+      induction l generalizing s with
+      | nil => rfl
+      | cons o r ih => exact ih _
+    exact (this _ _).symm
+  · have : ∀ (s : State) (l : List Op), FreshRun s l → freshOp (run s l) op → FreshRun s (l ++ [op]) := by
+      intro s l
+      induction l generalizing s with
+      | nil => intro _ h2; exact ⟨h2, trivial⟩
+      | cons o r ih => intro h1 h2; exact ⟨h1.1, ih _ h1.2 h2⟩
+    exact this _ _ hd hf
 
 /-! ### the shape of a step: what any operation can do to a subscription record / a connection -/
 
@@ -715,8 +807,12 @@ inductive Shape (st : State) (op : Op) (out : Out) : State → Prop
       ConnRel cn cn' → Shape st op out (put st k s' cn')
   | putConn {c : Nat} {cn cn' : Conn} : st.conns[c]? = some cn → ConnRel cn cn' →
       Shape st op out (putConn st c cn')
-  | newSub {c : Nat} {cn cn' : Conn} {t : Sub} {nx : Nat} : st.conns[c]? = some cn → ConnRel cn cn' →
-      Shape st op out ⟨st.conns.set c cn', st.subs ++ [t], nx⟩
+  /-- accept: the entry of a previous owner of the key (if any) is overwritten -/
+  | putD {k : Nat} {s s' : Sub} {cn cn' : Conn} {c m x : Nat} : lookup st k = some (s, cn) →
+      SubRel op out k s s' → ConnRel cn cn' →
+      Shape st op out (put { st with subs := st.subs.map (displace c m x) } k s' cn')
+  | newSub {c : Nat} {cn cn' : Conn} {t : Sub} : st.conns[c]? = some cn → ConnRel cn cn' →
+      Shape st op out ⟨st.conns.set c cn', st.subs ++ [t]⟩
   | stopAll : Shape st op out (doStop st).1
 
 theorem connRel_push (cn : Conn) (f : Frame) : ConnRel cn (cn.push f) :=
@@ -729,7 +825,7 @@ theorem connRel_close (cn : Conn) : ConnRel cn { cn with isOpen := false } :=
 
 theorem step_shape (st : State) (op : Op) : Shape st op (step st op).2 (step st op).1 := by
   cases op with
-  | subscribe c m rid =>
+  | subscribe c m rid sid =>
     simp only [step, doSubscribe]
     split
     · exact .same
@@ -754,7 +850,7 @@ theorem step_shape (st : State) (op : Op) : Shape st op (step st op).2 (step st 
         · exact .put hl ⟨rfl, rfl, rfl, rfl, id, by simp [hph], id, Or.inl rfl⟩ (connRel_release _)
         · split
           · exact .same
-          · exact .put hl ⟨rfl, rfl, rfl, rfl, id, fun _ => rfl, id, Or.inl rfl⟩ (connRel_push _ _)
+          · exact .putD hl ⟨rfl, rfl, rfl, rfl, id, fun _ => rfl, id, Or.inl rfl⟩ (connRel_push _ _)
   | reject k code =>
     simp only [step, doRefuse]
     split
@@ -856,7 +952,7 @@ theorem step_shape (st : State) (op : Op) : Shape st op (step st op).2 (step st 
           · exact .putConn hc (connRel_push _ _)
           · rename_i k hf
             obtain ⟨s, hs, hp⟩ := findIdx_some hf
-            simp only [tableKey, Bool.and_eq_true, beq_iff_eq] at hp
+            simp only [tableKey, sameKey, Bool.and_eq_true, beq_iff_eq] at hp
             rw [hs]
             have hl : lookup st k = some (s, cn) := by simp [lookup, hs, hp.1.1.1, hc]
             exact .put hl ⟨rfl, rfl, rfl, rfl, fun _ => rfl, id, id, Or.inl rfl⟩ (connRel_push _ _)
@@ -903,6 +999,17 @@ theorem sub_persist {st : State} (op : Op) {k : Nat} {s : Sub} (hs : st.subs[k]?
       rw [hs] at hs2; cases hs2
       exact ⟨s2', by simp [put, hk], hrel⟩
     · exact ⟨s, by simp [put, List.getElem?_set_ne e, hs], SubRel.rfl'⟩
+  | @putD k2 s2 s2' cn cn' c m x hl hrel _ =>
+    obtain ⟨hs2, _⟩ := lookup_some hl
+    by_cases e : k2 = k
+    · subst e
+      rw [hs] at hs2; cases hs2
+      exact ⟨s2', by simp [put, hk], hrel⟩
+    · refine ⟨displace c m x s, by simp [put, List.getElem?_set_ne e, List.getElem?_map, hs], ?_⟩
+      unfold displace
+      split
+      · exact ⟨rfl, rfl, rfl, rfl, id, id, id, Or.inl rfl⟩
+      · exact SubRel.rfl'
   | putConn _ _ => exact ⟨s, by simpa [putConn] using hs, SubRel.rfl'⟩
   | newSub _ _ => exact ⟨s, by rw [List.getElem?_append_left hk]; exact hs, SubRel.rfl'⟩
   | stopAll => exact ⟨s, by simpa [doStop] using hs, SubRel.rfl'⟩
@@ -924,13 +1031,20 @@ theorem conn_persist {st : State} (op : Op) {c : Nat} {cn : Conn} (hc : st.conns
       subst this
       exact ⟨cn2', by simp [put, e, hlen], hcr⟩
     · exact ⟨cn, by simp [put, List.getElem?_set_ne e, hc], ConnRel.rfl'⟩
+  | @putD k2 s2 s2' cn2 cn2' c3 m3 x3 hl hrel hcr =>
+    obtain ⟨_, hc2⟩ := lookup_some hl
+    by_cases e : s2'.conn = c
+    · have : cn2 = cn := by rw [hrel.conn] at e; rw [e, hc] at hc2; cases hc2; rfl
+      subst this
+      exact ⟨cn2', by simp [put, e, hlen], hcr⟩
+    · exact ⟨cn, by simp [put, List.getElem?_set_ne e, hc], ConnRel.rfl'⟩
   | @putConn c2 cn2 cn2' hc2 hcr =>
     by_cases e : c2 = c
     · subst e
       rw [hc] at hc2; cases hc2
       exact ⟨cn2', by simp [putConn, hlen], hcr⟩
     · exact ⟨cn, by simp [putConn, List.getElem?_set_ne e, hc], ConnRel.rfl'⟩
-  | @newSub c2 cn2 cn2' t nx hc2 hcr =>
+  | @newSub c2 cn2 cn2' t hc2 hcr =>
     by_cases e : c2 = c
     · subst e
       rw [hc] at hc2; cases hc2
